@@ -196,6 +196,11 @@ func (h *elGhost) apply(e vsup.Edge, to vsup.State) {
 			return
 		}
 		q.Drop(n)
+		if k > 0 && B > 0 && n == 0 {
+			// (short reads are a Reader's right; nothing at all out of a buffer that holds bytes is not)
+			h.viol(op, "stuck", fmt.Sprintf("Read(len %d) = 0,%s with %d bytes buffered", k, errClass(err), B))
+			return
+		}
 		if n != expN() || errClass(err) != vsup.Str(ret["err"]) {
 			h.nonconf(op, "result", fmt.Sprintf("Read(len %d) = %d,%s; model %d,%s", k, n, errClass(err), expN(), ret["err"]))
 		}
@@ -331,6 +336,39 @@ func (h *elGhost) post(op string, to vsup.State) {
 	}
 }
 
+// aftermath: whatever state the path ended in, everything the buffer holds comes out through Read, in order, a few
+// bytes at a time (destinations smaller than the segments, ending on and off their boundaries).
+func (h *elGhost) aftermath() {
+	h.step = len(h.path) - 1
+	b, q := h.b, h.q
+	defer func() {
+		if r := recover(); r != nil {
+			h.viol("Aftermath", "panic", fmt.Sprint(r))
+		}
+	}()
+	sizes := []int{3 * h.scale, h.scale, 2 * h.scale}
+	for i := 0; q.Len() > 0; i++ {
+		p := make([]byte, sizes[i%len(sizes)])
+		n, err := b.Read(p)
+		if n == 0 {
+			h.viol("Aftermath", "stuck", fmt.Sprintf("Read(len %d) = 0,%s with %d bytes still held", len(p), errClass(err), q.Len()))
+			return
+		}
+		if j := q.IsPrefix(p[:n]); j >= 0 {
+			h.viol("Aftermath", "content", fmt.Sprintf("Read(len %d) = %d: byte %d is not the next byte of the queue", len(p), n, j))
+			return
+		}
+		q.Drop(n)
+		if b.Buffered() != q.Len() {
+			h.viol("Aftermath", "buffered", fmt.Sprintf("Buffered()=%d, queue holds %d bytes", b.Buffered(), q.Len()))
+			return
+		}
+	}
+	if !b.IsEmpty() {
+		h.viol("Aftermath", "drain", "drained through Read, yet IsEmpty() is false")
+	}
+}
+
 func TestVerifElasticCover(t *testing.T) {
 	g, err := vsup.LoadGraph(os.Getenv("VERIF_GRAPH"))
 	if err != nil {
@@ -357,6 +395,9 @@ func TestVerifElasticCover(t *testing.T) {
 			if h.dead {
 				break
 			}
+		}
+		if !h.dead {
+			h.aftermath()
 		}
 		b.Release()
 		last := g.Edges[path[len(path)-1]]
